@@ -281,8 +281,60 @@ pub(crate) fn nlri_val(n: &Nlri) -> Val {
             Val::from_bytes(&x.prefix.addr.octets()),
             Val::n(x.prefix.mask),
         ]),
+        Nlri::VpnV4(x) => Val::L(vec![
+            i(24),
+            labels_val(&x.labels),
+            rd_bytes_val(&x.rd),
+            Val::n(u32::from(x.prefix.addr)),
+            Val::n(x.prefix.mask),
+        ]),
+        Nlri::VpnV6(x) => Val::L(vec![
+            i(26),
+            labels_val(&x.labels),
+            rd_bytes_val(&x.rd),
+            Val::from_bytes(&x.prefix.addr.octets()),
+            Val::n(x.prefix.mask),
+        ]),
         _ => Val::L(vec![i(99)]),
     }
+}
+
+pub(crate) fn rd_bytes_val(rd: &packet::rd::RouteDistinguisher) -> Val {
+    let mut b = Vec::new();
+    rd.encode(&mut b);
+    Val::from_bytes(&b)
+}
+
+// [type, admin, assigned]
+pub(crate) fn rd_of(v: &Val) -> packet::rd::RouteDistinguisher {
+    use packet::rd::RouteDistinguisher as R;
+    match v.at(0).int() {
+        0 => R::TwoOctetAs { admin: v.at(1).u16(), assigned: v.at(2).u32() },
+        1 => R::Ipv4 { admin: Ipv4Addr::from(v.at(1).u32()), assigned: v.at(2).u16() },
+        _ => R::FourOctetAs { admin: v.at(1).u32(), assigned: v.at(2).u16() },
+    }
+}
+
+pub(crate) fn api_rd_val(rd: &Option<api::RouteDistinguisher>) -> Val {
+    use api::route_distinguisher::Rd;
+    match rd.as_ref().and_then(|r| r.rd.as_ref()) {
+        None => Val::L(vec![i(0)]),
+        Some(Rd::TwoOctetAsn(r)) => Val::L(vec![i(1), Val::n(r.admin), Val::n(r.assigned)]),
+        Some(Rd::IpAddress(r)) => Val::L(vec![i(2), s_val(&r.admin), Val::n(r.assigned)]),
+        Some(Rd::FourOctetAsn(r)) => Val::L(vec![i(3), Val::n(r.admin), Val::n(r.assigned)]),
+    }
+}
+
+pub(crate) fn api_rd_of(v: &Val) -> Option<api::RouteDistinguisher> {
+    use api::route_distinguisher::Rd;
+    let l = v.list();
+    let rd = match l[0].int() {
+        0 => return None,
+        1 => Rd::TwoOctetAsn(api::RouteDistinguisherTwoOctetAsn { admin: l[1].u32(), assigned: l[2].u32() }),
+        2 => Rd::IpAddress(api::RouteDistinguisherIpAddress { admin: s_of(&l[1]), assigned: l[2].u32() }),
+        _ => Rd::FourOctetAsn(api::RouteDistinguisherFourOctetAsn { admin: l[1].u32(), assigned: l[2].u32() }),
+    };
+    Some(api::RouteDistinguisher { rd: Some(rd) })
 }
 
 pub(crate) fn nlri_of(v: &Val) -> Nlri {
@@ -300,6 +352,16 @@ pub(crate) fn nlri_of(v: &Val) -> Nlri {
             labels: stack(&l[1]),
             prefix: Ipv6Net { addr: v6_of(&l[2]), mask: l[3].u8() },
         }),
+        24 => Nlri::VpnV4(packet::vpn::VpnV4Nlri {
+            labels: stack(&l[1]),
+            rd: rd_of(&l[2]),
+            prefix: Ipv4Net { addr: Ipv4Addr::from(l[3].u32()), mask: l[4].u8() },
+        }),
+        26 => Nlri::VpnV6(packet::vpn::VpnV6Nlri {
+            labels: stack(&l[1]),
+            rd: rd_of(&l[2]),
+            prefix: Ipv6Net { addr: v6_of(&l[3]), mask: l[4].u8() },
+        }),
         k => panic!("verif: unknown nlri tag {}", k),
     }
 }
@@ -311,6 +373,13 @@ pub(crate) fn api_nlri_val(n: &api::Nlri) -> Val {
         Some(api::nlri::Nlri::LabeledPrefix(p)) => Val::L(vec![
             i(2),
             Val::L(p.labels.iter().map(|x| Val::n(*x)).collect()),
+            s_val(&p.prefix),
+            Val::n(p.prefix_len),
+        ]),
+        Some(api::nlri::Nlri::LabeledVpnIpPrefix(p)) => Val::L(vec![
+            i(3),
+            Val::L(p.labels.iter().map(|x| Val::n(*x)).collect()),
+            api_rd_val(&p.rd),
             s_val(&p.prefix),
             Val::n(p.prefix_len),
         ]),
@@ -330,6 +399,12 @@ pub(crate) fn api_nlri_of(v: &Val) -> api::Nlri {
             labels: l[1].list().iter().map(|x| x.u32()).collect(),
             prefix: s_of(&l[2]),
             prefix_len: l[3].u32(),
+        })),
+        3 => Some(api::nlri::Nlri::LabeledVpnIpPrefix(api::LabeledVpnipAddressPrefix {
+            labels: l[1].list().iter().map(|x| x.u32()).collect(),
+            rd: api_rd_of(&l[2]),
+            prefix: s_of(&l[3]),
+            prefix_len: l[4].u32(),
         })),
         k => panic!("verif: unknown api nlri tag {}", k),
     };
